@@ -1,9 +1,9 @@
 package vc
 
 import (
-	"golang.org/x/tools/go/ssa"
 	"fmt"
 	"go/types"
+	"golang.org/x/tools/go/ssa"
 	"sort"
 	"strings"
 	"sync"
@@ -95,9 +95,9 @@ type VC struct {
 	tableDone    bool
 	defs         map[string]string
 	lemmasUsed   map[string]bool
-	entryMeasure Term          // value of the function's `decreases` measure at entry
-	entryFn      *ssa.Function // the function being verified (for its recursive calls)
-	privateCells []privCell // cells of locals no callee can reach (kept across `modifies *`)
+	entryMeasure Term                     // value of the function's `decreases` measure at entry
+	entryFn      *ssa.Function            // the function being verified (for its recursive calls)
+	privateCells []privCell               // cells of locals no callee can reach (kept across `modifies *`)
 	strProv      map[string]strProvenance // string constants created by string([]byte): their source bytes
 }
 
